@@ -2,6 +2,7 @@ SPECIFICATION Spec
 CONSTANTS
   Tier = "thorough"
   Emit = "all"
+  Laws = "all"
 INVARIANT InvRefLaws
 INVARIANT InvRefPermInvariant
 INVARIANT InvAlg
